@@ -555,6 +555,15 @@ pub fn check_main(prop: &str, tier: &str) -> i32 {
     };
     let _ = pbit;
     println!("lrusim check {} {} VERIF_SEED={}", prop, tier, verif_seed);
+    // self-check of the re-implemented hashbrown sizing formula (a hashbrown change must not turn
+    // into false alarms of the capacity oracles)
+    for n in (0..=1024usize).chain([1500, 2047, 2048, 3000, 4096]) {
+        let real = crate::stubs::Cache::with_capacity_and_hasher(0, n, crate::stubs::SimHashBuilder::new(crate::stubs::HashMode::Good, 0)).capacity();
+        if real != crate::check::fresh_capacity(n) {
+            eprintln!("harness error: fresh_capacity({}) = {} but the real table has capacity {} (hashbrown's sizing changed?)", n, crate::check::fresh_capacity(n), real);
+            return 2;
+        }
+    }
     if prop == "C09" {
         return crate::c09::check_main(tier, verif_seed);
     }
